@@ -933,7 +933,7 @@ class vPeriod(TimeBase):
         # set the timezone identifier
         # does not support different timezones for start and end
         tzid = tzid_from_dt(start)
-        if tzid:
+        if tzid and tzid != 'UTC':
             self.params['TZID'] = tzid
 
         self.start = start
